@@ -10,7 +10,7 @@ _T = ['C14_2', 'C14_2_rowdict_sound', 'C14_2_rowdict_complete', 'C14_2_iff', 'C1
       'C14_3', 'C14_3_exact', 'C14_3_mentions_only', 'C14_3_on', 'C14_3_on_outer', 'C14_3_on_mentions_only',
       'C14_4_values_from_using', 'C14_4_last_wins', 'C14_4_unprefixed', 'C14_4_foreign_prefix', 'C14_4_own_prefix',
       'C14_4_partition_size_removed', 'C14_5_sound', 'C14_5_complete', 'C14_5_neutralised', 'C14_where_clauses',
-      'C14_1_apply_input', 'C14_1_predictor_first',
+      'C14_1', 'C14_1_nodup', 'C14_1_plan', 'C14_1_apply_input', 'C14_1_predictor_first',
       'C14_partial', 'C14_witness_model_first', 'C14_witness_on_gt',
       'C14_target_stays']
 THEOREMS = ['MindsVerif.Props.C14.' + t for t in _T]
@@ -18,10 +18,9 @@ ASSUME = [
     'PlanJoinTablesQuery (check_node_condition, process_predictor, process_table, process_subselect, '
     'get_filters_from_join_conditions, join_condition_to_columns_map, add_plan_step) is hand-modelled in '
     'MindsVerif.ModelJoin; tie = correspondence of whole plans on generated join queries (this run)',
-    'fragment of the correspondence: left-deep joins of 2-5 operands, sub-select operands and nested selects in WHERE '
-    'whose own plan is one fetch step, no LIMIT/ORDER/GROUP (C08), no time-series models (C15), ASCII identifiers',
-    'T14.1 is proved only locally (the apply step takes the stack top); the global step count / dataflow is checked by '
-    'the correspondence and by the impl-level probe, not proved',
+    'fragment of the correspondence: left-deep joins of 2-5 operands (the grammar has no parenthesised joins), sub-select '
+    'operands and nested selects in WHERE with arbitrary own plans (opaque: only their number of steps enters the model), '
+    'no LIMIT/ORDER/GROUP (C08), no time-series models (C15), ASCII identifiers',
     'specification readings: the predicted column (to_predict) is an output, not an argument; semi-join filters '
     '`col IN :Result` derived from ON equalities are C08\'s subject and exempt from the "top-level conjunct" clause; '
     '"no longer filters the outer result" = the residual WHERE accepts every row the original accepted',
@@ -44,6 +43,11 @@ def cases_for(chk, n):
 
 
 def run(chk):
+    # an entry of kf_proposed_C14.json replaces the entry of known_findings.json with the same id
+    byid = {}
+    for k in chk.kf:
+        byid[k['id']] = k
+    chk.kf = list(byid.values())
     quick = chk.tier == 'quick'
     deep = (not quick) or bool(chk.broken())
     n = 1500 if quick and not deep else (6000 if quick else 40000)
